@@ -155,7 +155,8 @@ SpecAng64(rot) == CASE rot[1] = "quarter" -> 64 * 90 * rot[2] [] rot[1] = "lat" 
 RefFails(s, j) ==
     Tag("cell_name", j.sname = s.cell) \cup Tag("resolved", (j.kind = "cell") = s.known)
     \cup Tag("reflection", j.refl = s.refl) \cup Tag("magnification", j.mag = SpecMag1024(s.mag))
-    \cup Tag("rotation", j.ang = SpecAng64(s.rot))
+    \* (whole turns denote the same placement: a quarter-turn record keeps the angle modulo 360 degrees)
+    \cup Tag("rotation", (j.ang - SpecAng64(s.rot)) % 23040 = 0)
     \cup Tag("origin", j.xy = <<Fine * s.x, Fine * s.y>>)
     \cup Tag("repetition", RepAgree(s.rep, j.rep)) \cup Tag("properties", PropsAgree(s.props, j.aprops))
 LabelFails(s, j) ==
